@@ -17,6 +17,10 @@ PROG_TEXT = {
 }
 
 
+RAISERS_C39 = ["(/ 1 0)", "(raise (KeyboardInterrupt))", "(/ 1 0)", "(raise (SystemExit 3))", "(raise (GeneratorExit))",
+               "(raise ((type \"Odd\" #(BaseException) {})))"]
+
+
 class Falsy:
     """A distinguishable object that is false."""
     def __bool__(self):
@@ -84,7 +88,9 @@ def main_c39(run):
                 dict.__setitem__(d, "hy", objs[init])
             for i, call in enumerate(h["calls"]):
                 n += 1
-                model = hy.read_many(PROG_TEXT[call["prog"]])
+                # "raises at any point": the exception is an ordinary one, or one that is not an Exception at all
+                ptext = PROG_TEXT[call["prog"]].replace("(/ 1 0)", RAISERS_C39[n % len(RAISERS_C39)])
+                model = hy.read_many(ptext)
                 before_present = "hy" in d
                 before_obj = d.get("hy")
                 if isinstance(d, LogDict):
@@ -92,22 +98,23 @@ def main_c39(run):
                 try:
                     v = hy.eval(model, g) if shape == "globals" else hy.eval(model, g, d)
                     outcome = "returned"
-                except Exception as x:
+                except BaseException as x:
                     v = x
                     outcome = "raised"
-                key = f"{shape}:{init}:" + ",".join(c["prog"] for c in h["calls"][: i + 1])
+                key = f"{shape}:{init}:" + ",".join(c["prog"] for c in h["calls"][: i + 1]) + \
+                    (f":{type(v).__name__}" if outcome == "raised" and not isinstance(v, Exception) else "")
                 run.case(key)
                 exp_present = call["after"] != "absent"
                 if outcome != call["outcome"]:
                     raise MachineryError(f"model program {call['prog']} {outcome}, spec says {call['outcome']}")
                 if outcome == "returned" and v != 3:
-                    run.violation("value:" + key, f"hy.eval of {PROG_TEXT[call['prog']]} returned {v!r}, "
+                    run.violation("value:" + key, f"hy.eval of {ptext} returned {v!r}, "
                                   "not the last form's value 3", {"history": h, "shape": shape, "call": i})
                 now_present = "hy" in d
                 if now_present != before_present or (now_present and d["hy"] is not before_obj) \
                         or now_present != exp_present:
                     run.violation("hy-entry:" + key,
-                                  f"after hy.eval({PROG_TEXT[call['prog']]!r}) [{outcome}] on a {shape} dict that "
+                                  f"after hy.eval({ptext!r}) [{outcome}] on a {shape} dict that "
                                   f"{'had' if before_present else 'had no'} hy entry: entry "
                                   f"{'present' if now_present else 'absent'}"
                                   f"{'' if not now_present or d['hy'] is before_obj else ' but a different object'}",
@@ -372,13 +379,39 @@ def main_c40(run):
                           f"feeding {text!r} line by line gives log={log} globals={gl} stderr={err.getvalue()[-200:]!r}; "
                           f"as a script: log={ref['log']} globals={ref['globals']}", {"text": text})
     run.cov["split_programs"] = nprog
+    # "prints each non-None result": values of every kind, the falsy ones included; what is printed is hy.repr's text
+    pool = ["6", "0", '""', "False", "[]", "None", "10", "0.0", "#()", "{}", '"a"', "True", "(do)", "-1", "0j", "b\"\"", ":k", "'x", "'()"]
+    nprint = 0
+    for _ in range(40 if q else 1000):
+        inputs = [rng.choice(pool) for _ in range(rng.randint(1, 6))]
+        out, err = io.StringIO(), io.StringIO()
+        with contextlib.redirect_stdout(out), contextlib.redirect_stderr(err):
+            repl = REPL(locals={"__name__": "hyverif_repl_print"})
+            for t in inputs:
+                repl.runsource(t, "<stdin>")
+        want = []
+        for t in inputs:
+            v = hy.eval(hy.read(t), {})
+            if v is not None:
+                want.append(hy.repr(v))
+        got = out.getvalue().splitlines()
+        nprint += 1
+        run.case(("print", tuple(inputs)))
+        if got != want or err.getvalue().strip():
+            run.violation("print:" + " ".join(inputs), f"inputs {inputs}: the REPL printed {got} (stderr {err.getvalue()[-100:]!r}); "
+                          f"the non-None results are {want}", {"inputs": inputs})
+        else:
+            run.cov["traces_validated_against_impl"] += 1
+    sys.modules.pop("hyverif_repl_print", None)
+    run.cov["print_sessions"] = nprint
     run.sample({"split_program": text})
     return run.finish("model_checking",
                       "every history of %d inputs over {ok, None, compile failure, run-time failure, print failure} "
                       "(TLC-enumerated), each replayed through hy.repl.REPL.runsource with multi-line inputs fed line by "
                       "line; after every call (*1,*2,*3,*e,printed) is recorded and the session is trace-validated by TLC "
                       "against HyRepl; plus random programs split at line breaks (also empty lines inside forms) compared with the reader's completeness "
-                      "and with script execution" % maxin,
+                      "and with script execution; plus sessions over values of every kind (falsy ones included), whose non-None results "
+                      "must be printed as hy.repr gives them" % maxin,
                       extra={"exhaustive": True})
 
 
